@@ -605,15 +605,18 @@ package leveldb
 // (C08: a write that was acknowledged is in the journal).
 //@ ghost var gJournalFailed bool
 //@ func (*DB).writeJournal
-//@   props C04 C08 C01
+//@   props C04 C08 C01 C10
 //@   at entry
 //@     ghost gJournalFailed = false
+// (the sync covers the record only if the record has left the journal writer's buffer for the file before it)
+//@   at before call storage.Syncer.Sync#1
+//@     assert [C04,C08,C10:the-record-is-flushed-to-the-file-before-the-file-is-synced] calls("(*Writer).Flush") > old(calls("(*Writer).Flush")) && !gJournalFailed
 //@   at call (*Writer).Flush#1
 //@     ghost gJournalFailed = gJournalFailed || result != nil
 //@   at call storage.Syncer.Sync#1
 //@     ghost gJournalFailed = gJournalFailed || result != nil
-//@   ensures [C04:flushed] result == nil ==> calls("(*Writer).Flush") > old(calls("(*Writer).Flush"))
-//@   ensures [C04:synced-when-asked] (result == nil && sync) ==> calls("storage.Syncer.Sync") > old(calls("storage.Syncer.Sync"))
+//@   ensures [C04,C10:flushed] result == nil ==> calls("(*Writer).Flush") > old(calls("(*Writer).Flush"))
+//@   ensures [C04,C10:synced-when-asked] (result == nil && sync) ==> calls("storage.Syncer.Sync") > old(calls("storage.Syncer.Sync"))
 //@   ensures [C01,C04,C08:a-failed-journal-flush-or-sync-is-reported] gJournalFailed ==> result != nil
 
 // ... and the sequence numbers of a write group are published before its write buffer is rotated: the rotation
@@ -1964,7 +1967,7 @@ package leveldb
 // tables with a common user key into one level); a spurious "overlaps" only costs a level.
 //@ spec func numsOK(tf ref) bool = forall i int :: 0 <= i && i < len(tf) ==> (numof(tf[i].imax) <= keyMaxNum && numof(tf[i].imin) <= keyMaxNum)
 //@ func (tFiles).searchMax
-//@   props C06 C01 C19 C03
+//@   props C06 C01 C19 C03 C15
 //@   abstract keys
 //@   requires sortedDisjoint(tf)
 //@   ensures [partition-point] 0 <= result && result <= len(tf) && (forall j int :: 0 <= j && j < result ==> ikcmp(tf[j].imax, ikey) < 0) && (forall j int :: result <= j && j < len(tf) ==> ikcmp(tf[j].imax, ikey) >= 0)
@@ -2005,13 +2008,13 @@ package leveldb
 //@   at after stmt nt = append(nt[:index], append(added, nt[index:]...)...)#2
 //@     assert [C06:spliced-level-stays-sorted-and-disjoint] sortedDisjoint(nt)
 //@ func (tFiles).overlaps
-//@   props C06 C01 C19 C03
+//@   props C06 C01 C19 C03 C15
 //@   abstract keys
 //@   safety off
 //@   requires !unsorted ==> (sortedDisjoint(tf) && numsOK(tf))
 //@   loop 1
 //@     invariant forall j int :: 0 <= j && j < rangeidx ==> !ovl(tf[j], umin, umax)
-//@   ensures [C01,C03,C06,C19:no-overlap-means-none] !result ==> (forall i int :: 0 <= i && i < len(tf) ==> !ovl(tf[i], umin, umax))
+//@   ensures [C01,C03,C06,C15,C19:no-overlap-means-none] !result ==> (forall i int :: 0 <= i && i < len(tf) ==> !ovl(tf[i], umin, umax))
 
 // ---------------------------------------------------------------------------
 // C02: a forward step of the DB iterator surfaces the newest visible version of the next user key and nothing
